@@ -29,6 +29,8 @@ def _rank(x):
     g = getattr(x, 'graph_id', None)
     if isinstance(g, int):
         return PERM[0][g % 3]
+    if isinstance(g, str) and g in (PIN.get('labels') or []):
+        return PERM[0][PIN['labels'].index(g) % 3]
     i = getattr(x, 'id', None)
     if isinstance(i, str) and i[-1:].isdigit():
         return PERM[0][int(i[-1]) % 3]
@@ -108,7 +110,7 @@ def scenario(s2, c0, c1, c2):
     edges = {'free': [], 'fork': [[0, 1, 5], [0, 2, 5]], 'join': [[0, 2, 5], [1, 2, 5]]}[shape]
     sc = dict(machines=PIN.get('machines', [10, 20]), bw=5, max_ingest=2, arrays=4, hot=1000, cold=1000, hot_rate=100, cold_rate=100,
               obs=[dict(start=0, dur=1, arrays=1, ingest=1, rate=5), dict(start=s2, dur=2, arrays=1, ingest=1, rate=5)],
-              graphs=[dict(n=3, edges=edges, comps=[PIN.get('scale', 10) * c0, PIN.get('scale', 10) * c1, PIN.get('scale', 10) * c2])], alg=dict(kind='queue'), delays=[])
+              graphs=[dict(n=3, edges=edges, labels=PIN.get('labels'), comps=[PIN.get('scale', 10) * c0, PIN.get('scale', 10) * c1, PIN.get('scale', 10) * c2])], alg=dict(kind='queue'), delays=[])
     if PIN.get('seed_delay') is not None:
         sc['seed_delay'] = PIN['seed_delay']      # the planner's own delay model, copied per task
     a = PIN.get('alg', 'queue')
@@ -256,6 +258,9 @@ def shards(tier, prop):
     # a reservation of several unequal machines that is released and handed to the next workflow
     out.append({'fn': 'order', 'pin': {'alg': 'batch', 'shape': 'free', 'machines': [10, 20, 30, 40], 'scale': 30}, 'cond_timeout': T})
     out.append({'fn': 'order', 'pin': {'alg': 'batch', 'shape': 'fork', 'machines': [10, 20, 30, 40], 'scale': 30}, 'cond_timeout': T})
+    # workflow node names that are strings sharing their trailing number ('cal_1', 'img_1'): any key derived from a part of the id ties
+    out.append({'fn': 'order', 'pin': {'alg': 'batch', 'shape': 'free', 'machines': [10, 20, 30, 40], 'scale': 30, 'labels': ['cal_1', 'img_1', 'cal_2']}, 'cond_timeout': T})
+    out.append({'fn': 'order', 'pin': {'alg': 'queue', 'shape': 'free', 'machines': [10, 20, 30], 'labels': ['cal_1', 'img_1', 'cal_2']}, 'cond_timeout': T})
     # the planner carries its own seeded delay model (copied per task); string hashes salted differently in the two runs
     out.append({'fn': 'order', 'pin': {'alg': 'queue', 'shape': 'fork', 'seed_delay': 20}, 'cond_timeout': T})
     out.append({'fn': 'order', 'pin': {'alg': 'batch', 'shape': 'join', 'seed_delay': 7}, 'cond_timeout': T})
